@@ -161,6 +161,10 @@ func (p pstep) src() string {
 			s = "[\"" + p.sub.s + "\"]"
 		} else if p.sub.kind == "nil" {
 			s = "[nothing]"
+		} else if p.sub.kind == "float" {
+			s = fmt.Sprintf("[%.1f]", p.sub.f)
+		} else if p.sub.kind == "bool" {
+			s = fmt.Sprintf("[%v]", p.sub.b)
 		} else {
 			s = fmt.Sprintf("[%d]", p.sub.i)
 		}
@@ -216,10 +220,15 @@ var c08Methods = map[string]method{
 	"Sum3": {[]string{"int", "int", "int"}, false, false, func(s *rstruct, a []*rv) (*rv, error) {
 		return &rv{kind: "int", i: a[0].i + a[1].i + a[2].i}, nil
 	}},
-	"ValArg":  {[]string{"val"}, false, false, func(s *rstruct, a []*rv) (*rv, error) { return &rv{kind: "str", s: rvString(a[0]) + "!"}, nil }},
-	"Fail":    {nil, false, false, func(s *rstruct, a []*rv) (*rv, error) { return nil, errRef }},
-	"Two":     {nil, false, false, func(s *rstruct, a []*rv) (*rv, error) { return &rv{kind: "str", s: "two"}, nil }},
-	"PtrName": {nil, false, true, func(s *rstruct, a []*rv) (*rv, error) { return &rv{kind: "str", s: "p:" + s.Name}, nil }},
+	"ValArg": {[]string{"val"}, false, false, func(s *rstruct, a []*rv) (*rv, error) { return &rv{kind: "str", s: rvString(a[0]) + "!"}, nil }},
+	"Fail":   {nil, false, false, func(s *rstruct, a []*rv) (*rv, error) { return nil, errRef }},
+	"Two":    {nil, false, false, func(s *rstruct, a []*rv) (*rv, error) { return &rv{kind: "str", s: "two"}, nil }},
+	"PtrName": {nil, false, true, func(s *rstruct, a []*rv) (*rv, error) {
+		if s == nil {
+			return &rv{kind: "str", s: "p:nil"}, nil
+		}
+		return &rv{kind: "str", s: "p:" + s.Name}, nil
+	}},
 }
 
 func rvString(v *rv) string {
@@ -290,10 +299,10 @@ func refWalk(v *rv, steps []pstep) (*rv, error) {
 					// a pointer-receiver method is not in the method set of a value
 				} else {
 					if cur.kind == "ptr" && cur.st == nil {
-						if m.ptrOnly {
-							return nil, nil // outside the reference (a nil-tolerant pointer method)
+						if !m.ptrOnly {
+							return rvEmpty, nil
 						}
-						return rvEmpty, nil
+						// a method declared on the pointer type is called, also on a nil pointer
 					}
 					r, err := callMethod(m, cur.st, st.args)
 					if err != nil {
@@ -343,13 +352,11 @@ func refWalk(v *rv, steps []pstep) (*rv, error) {
 			case "sub":
 				switch cur.kind {
 				case "str", "list", "arr":
-					idx := 0
-					switch st.sub.kind {
-					case "int":
-						idx = st.sub.i
-					case "str":
-						fmt.Sscanf(st.sub.s, "%d", &idx)
+					if st.sub.kind != "int" {
+						// only an integer is an index: any other key finds nothing
+						return rvEmpty, nil
 					}
+					idx := st.sub.i
 					if cur.kind == "str" {
 						if idx >= 0 && idx < len(cur.s) {
 							cur = &rv{kind: "int", i: int(cur.s[idx])}
@@ -593,8 +600,14 @@ func (g *c08Gen) step() pstep {
 	case 6:
 		return pstep{kind: "sub", sub: &rv{kind: "str", s: g.rg.pick([]string{"a", "k", "Name", "1", "zz", "hidden", "Items", "Sub", "Greet"})}}
 	}
+	if g.rg.chance(1, 2) {
+		// keys of other kinds
+		return pstep{kind: "sub", sub: g.rg.pickRV([]*rv{{kind: "float", f: 1.5}, {kind: "bool", b: true}, {kind: "str", s: "1"}, {kind: "str", s: "0"}, {kind: "str", s: ""}})}
+	}
 	return pstep{kind: "sub", sub: rvEmpty}
 }
+
+func (g *rng) pickRV(xs []*rv) *rv { return xs[g.intn(len(xs))] }
 
 func runC08(r *run) {
 	rg := newRng(r.seed)
@@ -653,7 +666,7 @@ func runC08(r *run) {
 				case 4:
 					path += fmt.Sprintf("[%d]", g.intn(6)-1)
 				default:
-					path += "[\"" + g.pick([]string{"a", "Name", "1", "zz"}) + "\"]"
+					path += "[" + g.pick([]string{"\"a\"", "\"Name\"", "\"1\"", "\"zz\"", "1.9", "true", "nothere", "\"\"", "v", "1"}) + "]"
 				}
 			}
 			src := "{% autoescape off %}[{{ " + path + "|default:\"?\"|striptags }}][{{ " + path + "|length }}][{% if " + path + " %}T{% else %}F{% endif %}]{% endautoescape %}"
@@ -661,7 +674,8 @@ func runC08(r *run) {
 		}
 		// shadowing: tag-set names over context keys over globals
 		w := &world{files: []map[string]string{{"inc.tpl": "<{{ x }},{{ y }},{{ g }}>"}}, globals: gctx{{"g", gStr("G")}, {"x", gStr("GX")}, {"y", gStr("GY")}, {"nv", gStr("GNV")}, {"gm", gMap([]string{"k"}, []*gval{gStr("GK")})}}}
-		ctx := gctx{{"x", gStr("CX")}, {"nv", gNil()}, {"gm", gNil()}}
+		ctx := gctx{{"x", gStr("CX")}, {"nv", gNil()}, {"gm", gNil()}, {"block", gStr("CB")}, {"forloop", gStr("CF")}}
+		w.files[0]["blk.tpl"] = "{% block b %}B{% endblock %}[{{ block }}]"
 		for _, c := range [][2]string{{"{{ g }}{{ x }}{{ y }}", "GCXGY"}, {"{% set x = \"SX\" %}{{ x }}{{ y }}", "SXGY"}, {"{% with y=\"WY\" %}{{ x }}{{ y }}{% endwith %}{{ y }}", "CXWYGY"},
 			{"{% for g in \"ab\" %}{{ g }}{% endfor %}{{ g }}", "abG"},
 			{"{% with x=\"WX\" %}{% include \"inc.tpl\" %}{% endwith %}{% for y in \"pq\" %}{% include \"inc.tpl\" %}{% endfor %}{% set g = \"SG\" %}{% include \"inc.tpl\" %}{% ssi \"inc.tpl\" parsed %}", "<WX,GY,G><CX,p,G><CX,q,G><CX,GY,SG><CX,GY,SG>"},
@@ -671,6 +685,11 @@ func runC08(r *run) {
 			{"{% with x=y y=x %}{{ x }}{{ y }}{% endwith %}{{ x }}{{ y }}", "GYCXCXGY"},
 			{"{% with x=\"WX\" z=x y=x|lower %}{{ z }}{{ y }}{{ x }}{% endwith %}", "CXcxWX"},
 			{"{% with g=gm gm=g k=gm.k %}[{{ g.k }}][{{ gm }}][{{ k }}]{% endwith %}", "[][G][]"},
+			// context keys that carry the names tags use for their own bindings, read where no tag binds them
+			{"{{ block }}{% block b %}x{% endblock %}[{{ block }}]{% block c %}{% block d %}y{% endblock %}{% endblock %}[{{ block }}]", "CBx[CB]y[CB]"},
+			{"{% extends \"blk.tpl\" %}{% block b %}C{{ block.Super }}{% endblock %}", "CB[CB]"},
+			{"{{ forloop }}{% for i in \"ab\" %}{{ forloop.Counter }}{% for j in \"c\" %}{{ forloop.Parentloop.Counter }}{% endfor %}{% endfor %}[{{ forloop }}]", "CF1122[CF]"},
+			{"{% for i in \"a\" %}{% endfor %}{% with q=1 %}{{ forloop }}{{ block }}{% endwith %}{% macro m() %}{{ forloop }}{{ block }}{% endmacro %}{{ m() }}", "CFCBCFCB"},
 			{"[{{ nv }}][{{ nv.name }}][{{ gm.k }}]{% if nv %}T{% else %}F{% endif %}{% if gm %}T{% else %}F{% endif %}", "[][][]FF"}, {"{% macro m(x) %}{{ x }}{{ y }}{% endmacro %}{{ m(\"MX\") }}{{ x }}", "MXGYCX"}} {
 			a := w.args(c[0], ctx)
 			a = append(a, "-", "-", hx(c[1]))
@@ -701,6 +720,13 @@ func execC08(r *run, c caseT) {
 	var steps []pstep
 	for k := 0; k < g.rg.intn(5); k++ {
 		steps = append(steps, g.step())
+	}
+	if g.rg.chance(1, 8) {
+		// methods reached through a chain of pointers that ends in a nil pointer
+		for k := 0; k < 1+g.rg.intn(3); k++ {
+			steps = append(steps, pstep{kind: "ident", name: "Sub"})
+		}
+		steps = append(steps, pstep{kind: "ident", name: g.rg.pick([]string{"PtrName", "PtrName", "Greet", "Name", "Two"}), call: g.rg.chance(1, 2)})
 	}
 	path := "v"
 	for _, st := range steps {
